@@ -217,3 +217,26 @@ PROPS["C05"] = {
     "counter_floors": {"quick": {"chain_steps": 1000000, "op:widening": 1000, "op:narrowing": 500}},
     "assumptions": _POOL_ASSUME,
 }
+
+ENGINES += [
+    {"name": "engine", "path": "harness/h_engine.cc", "serves_properties": ["C06"],
+     "kind_free_text": "client-defined value types pushed through the real interleaved_fwd_fixpoint_iterator: finite-state sets with brute-force reachability as oracle; logging wrapper around interval_domain with an offline check of the lattice-call log"},
+]
+PROPS["C06"] = {
+    "technique": "client-defined value types driven through the real fixpoint engine: finite-state set values against brute-force reachability (exact least solution), and an offline checker over the recorded log of lattice calls (no extrapolation before widening_delay, join-only fixpoint)",
+    "level_text": "every digraph with <=3 nodes (12 configurations each) and every 4-node digraph (4 configurations) over a 2-state space, plus random graphs up to 9 nodes over up to 6 states, with random transition relations, admissible alternative start blocks, assumption maps, all widening-delay/descending/threshold settings: get_pre/get_post must equal the reachable state sets exactly. 2-3 thousand single-loop programs with a logging interval value: the log of lattice calls shows no widening before the delay and loops that stabilise within the delay get the join-only fixpoint. Held on the cases run.",
+    "level_note": "the start block is drawn among the CFG entry and the blocks listed in the WTO outside every component; blocks not reachable from the start are not compared",
+    "rule": "finite: a case is (graph, relations, start, initial set, assumptions, parameters), non-trivial = the WTO has a component; logged: a case is one loop program + parameters; distinct = hash of the printed case",
+    "abort_is_violation": True,
+    "jobs": {
+        "quick": [{"name": "finite_exh", "bin": "engine", "engine": "finite_exh", "cases": "all"},
+                  {"name": "finite", "bin": "engine", "engine": "finite", "cases": 60000},
+                  {"name": "logged", "bin": "engine", "engine": "logged", "cases": 3000}],
+        "thorough": [{"name": "finite_exh", "bin": "engine", "engine": "finite_exh", "cases": "all"},
+                     {"name": "finite", "bin": "engine", "engine": "finite", "cases": 3000000},
+                     {"name": "logged", "bin": "engine", "engine": "logged", "cases": 100000}],
+    },
+    "floor": {"quick": 30000, "thorough": 500000},
+    "counter_floors": {"quick": {"cases_alternative_start": 5000, "cases_with_assumptions": 5000, "join_only_fixpoints_compared": 300, "extrapolation_calls_checked": 3000}},
+    "assumptions": ["the oracle is a naive chaotic iteration over (block, state) pairs written in the harness"],
+}
